@@ -62,4 +62,15 @@ def handleParseProg (fs : List String) : String :=
     | _ => "bad-program"
   | _ => "bad-request"
 
+/-- `progfacts # prog` : decidable facts about a program sent over the wire (hypotheses of the C17 theorems) -/
+def handleProgFacts (fs : List String) : String :=
+  match fs with
+  | "#" :: rest =>
+    match WireProg.readProg rest with
+    | some (prog, _) =>
+      let nf := prog.all (fun r => match r.body with | .alts as _ _ => as.all (fun a => match a.act with | .none => false | .viaItem _ => false | _ => true) | _ => true)
+      s!"nofalsy={nf}"
+    | none => "bad-program"
+  | _ => "bad-request"
+
 end XV.Driver
